@@ -16,7 +16,7 @@ def harnesses(tier):
           ('vhm', ('XV_RECL=GC',), False, '_gc'), ('vhm', ('XV_RECL=EBR',), False, '_ebr'),
           # TSan build variant (TSAN_MEMORY_ORDER picks the stronger orders, fences stay): same code paths, other orders
           ('uq', ('XV_RECL=HPs<3>',), True, '_hp_tsan'), ('seqlock', (), True, '_tsan')]
-    hs += rc.harnesses('thorough', only=['_hp', '_ebr', '_qsbr', '_stamp', '_lfrc', '_he'] if tier != 'thorough' else None)
+    hs += rc.harnesses('thorough', only=['_hp', '_ebr', '_qsbr', '_stamp', '_lfrc', '_he', '_hpd', '_hed'] if tier != 'thorough' else None)
     if tier == 'thorough':
         hs += [('uq', ('XV_RECL=STAMP',), False, '_stamp'), ('uq', ('XV_RECL=QSBR',), False, '_qsbr'), ('hm', ('XV_RECL=EBR',), False, '_ebr'), ('recl', ('XV_RECL=EBR',), True, '_ebr_tsan')]
     return hs
@@ -96,4 +96,8 @@ def run(ctx):
         K = rc.K_of(name.replace('_tsan', ''))
         mh = 0 if K == 1 else ((K - 1) if K else None)
         go(name, [({'cells': '2', 'slots': '3', 'flushes': '40'}, rc.client_program(rng, 3, 4, maxheld=mh, guard_ops=(K is None or K >= 3))) for _ in range(2)])
+        if name.endswith('_hpd') or name.endswith('_hed'):
+            # dynamic strategy: a thread that needs more slots than its first block publishes additional blocks while other threads scan them
+            grow = [['repl 0', 'hold 0 0', 'repl 1', 'hold 1 1', 'repl 0', 'hold 0 2', 'repl 1', 'hold 1 3', 'deref 0', 'deref 3'], ['repl 0', 'repl 1', 'repl 0'], ['repl 1', 'read 0', 'repl 1']]
+            go(name, [({'cells': '2', 'slots': '4', 'flushes': '40'}, grow)])
     return None
